@@ -233,6 +233,17 @@ pub proof fn lemma_idx_step(idx: Seq<u64>, end: int, i: int)
     lemma_idx_start_mono(idx, i + 1, idx.len() as int);
     lemma_idx_start_mono(idx, 0, i);
 }
+/// `roots.iter().fold(0, |acc, node| acc + node.length)` (iterator adapter): sum of the root sizes
+#[verifier::external_body]
+pub fn vp_sum_lengths(roots: &Vec<Node>) -> (r: u64)
+    requires roots_sum(roots@) <= u64::MAX
+    ensures r == roots_sum(roots@)
+{ roots.iter().fold(0, |acc, node| acc + node.length) }
+pub proof fn lemma_roots_sum_bound(s: Seq<Node>)
+    requires forall|k: int| 0 <= k < s.len() ==> (#[trigger] s[k]).length <= 0xffff_ffff_ffff
+    ensures 0 <= roots_sum(s) <= s.len() * 0xffff_ffff_ffff
+    decreases s.len()
+{ if s.len() > 0 { lemma_roots_sum_bound(s.drop_last()); } }
 pub proof fn lemma_idx_start_mono(idx: Seq<u64>, a: int, b: int)
     requires 0 <= a <= b
     ensures 0 <= flat_tree::idx_start(idx, a) <= flat_tree::idx_start(idx, b)
@@ -661,6 +672,56 @@ impl MerkleTree {
         r is Ok ==> hypercore_index < old(self).length,
         r is Ok && r->Ok_0 is Left ==> r->Ok_0->Left_0@.len() > 0 && instr_tree(r->Ok_0->Left_0@)
     sub `instructions\.extend\((\w+)\);` => `vp_extend(&mut instructions, \1);`
+    @*/
+
+    /*@ fn src/tree/merkle_tree.rs MerkleTree::truncate
+    tags: C01 C02 C05
+    result: r
+    requires:
+        old(self).t_wf(), old(self).unflushed_keyed(), old(self).unflushed_small(), infos_small(infos), infos_readable(infos), length <= 0xff_ffff_ffff,
+        forall|k: int| 0 <= k < old(self).roots@.len() ==> (#[trigger] old(self).roots@[k]).length <= 0xffff_ffff_ffff
+    ensures:
+        *final(self) == *old(self),
+        r is Ok && r->Ok_0 is Left ==> r->Ok_0->Left_0@.len() > 0 && instr_tree(r->Ok_0->Left_0@),
+        // the changeset that replays a stored tree upgrade: exactly the requested length / fork, built on this tree, and its roots
+        // are the mountain range of that length (so committing it keeps the tree's root invariant)
+        r is Ok && r->Ok_0 is Right ==> r->Ok_0->Right_0.upgraded && r->Ok_0->Right_0.length == length && r->Ok_0->Right_0.fork == fork
+            && r->Ok_0->Right_0.ancestors == length && r->Ok_0->Right_0.nodes@.len() == 0
+            && r->Ok_0->Right_0.original_tree_length == old(self).length && r->Ok_0->Right_0.original_tree_fork == old(self).fork
+            && r->Ok_0->Right_0.cs_mr() && r->Ok_0->Right_0.byte_length == roots_sum(r->Ok_0->Right_0.roots@)
+    sub `for \(i, root\) in full_roots\.iter\(\)\.enumerate\(\) \{` => `let mut vp_k: usize = 0; while vp_k < full_roots.len() { let i = vp_k; let root = &full_roots[vp_k]; vp_k += 1;`
+    sub `(?s)changeset\s*\.roots\s*\.iter\(\)\s*\.fold\(0, \|acc, node\| acc \+ node\.length\)` => `vp_sum_lengths(&changeset.roots)`
+    loop 1:
+        invariant
+            self.t_wf(), self.unflushed_keyed(), self.unflushed_small(), map_keyed(nodes), map_small(nodes), *self == *old(self),
+            vp_k <= full_roots@.len(), full_roots@ == flat_tree::spec_full_roots(head as int), full_roots@.len() <= 64, head == 2 * length, length <= 0xff_ffff_ffff,
+            forall|k: int| 0 <= k < full_roots@.len() ==> (#[trigger] full_roots@[k]) < head,
+            instr_tree(instructions@),
+            changeset.roots@.len() <= 64 + vp_k,
+            forall|k: int| 0 <= k < changeset.roots@.len() ==> (#[trigger] changeset.roots@[k]).length <= 0xffff_ffff_ffff,
+            instructions@.len() == 0 ==> changeset.roots@.len() >= vp_k && forall|k: int| 0 <= k < vp_k ==> (#[trigger] changeset.roots@[k]).index == full_roots@[k],
+            changeset.nodes@.len() == 0, changeset.original_tree_length == self.length, changeset.original_tree_fork == self.fork
+        decreases full_roots@.len() - vp_k
+    loop 2:
+        invariant
+            changeset.roots@.len() <= 64 + vp_k, i < vp_k, i == vp_k - 1,
+            forall|k: int| 0 <= k < changeset.roots@.len() ==> (#[trigger] changeset.roots@[k]).length <= 0xffff_ffff_ffff,
+            instructions@.len() == 0 ==> changeset.roots@.len() >= i && forall|k: int| 0 <= k < i ==> (#[trigger] changeset.roots@[k]).index == full_roots@[k],
+            changeset.nodes@.len() == 0, changeset.original_tree_length == self.length, changeset.original_tree_fork == self.fork
+        decreases changeset.roots@.len()
+    loop 3:
+        invariant
+            changeset.roots@.len() >= full_roots@.len(),
+            forall|k: int| 0 <= k < changeset.roots@.len() ==> (#[trigger] changeset.roots@[k]).length <= 0xffff_ffff_ffff,
+            forall|k: int| 0 <= k < full_roots@.len() ==> (#[trigger] changeset.roots@[k]).index == full_roots@[k],
+            changeset.nodes@.len() == 0, changeset.original_tree_length == self.length, changeset.original_tree_fork == self.fork
+        decreases changeset.roots@.len()
+    before `changeset.fork = fork;`:
+        proof {
+            assert(changeset.roots@.len() == full_roots@.len());
+            lemma_mr_from_idx(changeset.roots@, full_roots@, head as int);
+            lemma_roots_sum_bound(changeset.roots@);
+        }
     @*/
 
     /// a tree that holds blocks has a signature over them (established by open / commit)
